@@ -94,6 +94,10 @@ def run_hist(chk, rng, kind, cap, ops):
             mops.append(("add", o[1]))
             case_ops.append(["add", o[1]])
             s = o[1] % cap
+            others = [i for i in range(n) if i != s and frac(buf.priority.priority[i]) != prio_before[i]]
+            if others:
+                chk.fail(f"C08:{kind}:add-frame", "adding a transition changed the priority of other stored transitions",
+                         {"class": kind, "capacity": cap, "ops": case_ops, "slots": others})
             if frac(buf.priority.priority[s]) != maxp_before:
                 chk.fail(f"C08:{kind}:new-priority", "a newly added transition did not receive the current maximum priority",
                          {"class": kind, "capacity": cap, "ops": case_ops, "slot": s,
@@ -107,6 +111,10 @@ def run_hist(chk, rng, kind, cap, ops):
             stub.uniforms = [float(u) for u in us]
             res = buf.sample_batch(b, stub)
             batch, weights = (res if kind == "per" else (res, None))
+            if [frac(x) for x in buf.priority.priority[:n]] != prio_before or frac(buf.priority.max_priority) != maxp_before:
+                chk.fail(f"C08:{kind}:sample-frame", "sampling changed stored priorities (later draws are no longer proportional to the priorities set by add / update)",
+                         {"class": kind, "capacity": cap, "ops": case_ops + [["sample", [str(u) for u in us]]], "before": [str(p) for p in prio_before],
+                          "after": [str(frac(x)) for x in buf.priority.priority[:n]]})
             rows = [decode_row(batch, j) for j in range(b)]
             slots = [k % cap for k, _ in rows]
             last_sampled = slots
@@ -336,7 +344,16 @@ def subtraj_per_cases(chk, rng, n_cases):
                 us = boundary_us(prio_now, rng, b)
                 stub = StubRng()
                 stub.uniforms = [float(u) for u in us]
-                batch = buf.sample_batch(b, h, True, stub)
+                stored_before = [frac(x) for x in buf.priority.priority]
+                okc, batch = chk.impl_call("C08:subtraj_per:sample-raised", {"capacity": cap, "horizon": H, "ops": case_ops + [["sample", [str(u) for u in us], h]]},
+                                           buf.sample_batch, b, h, True, stub)
+                if not okc:
+                    break
+                if [frac(x) for x in buf.priority.priority] != stored_before:
+                    chk.fail("C08:subtraj_per:sample-frame", "sampling changed stored priorities: entries that were masked out at the time of a draw lose the "
+                             "priority they were given when added, so later draws are not proportional over the valid entries",
+                             {"capacity": cap, "horizon": H, "ops": case_ops + [["sample", [str(u) for u in us], h]],
+                              "before": [str(x) for x in stored_before], "after": [str(frac(x)) for x in buf.priority.priority]})
                 obs = np.asarray(batch.observation).reshape(b, h)
                 # spec oracle: start index is enabled, in the filled region, in its interval
                 cs, acc = [], F(0)
@@ -455,7 +472,12 @@ def mt_cases(chk, rng, n_cases):
                 b = int(rng.choice([1, 2, 3]))
                 us = boundary_us(prio, rng, b)
                 stub.uniforms = [float(u) for u in us]
-                mt.sample_batch(b, stub)
+                before = [[frac(x) for x in bb.priority.priority[:len(bb)]] for bb in mt.buffers]
+                okc, _ = chk.impl_call("C08:multitask:sample-raised", {"capacity": cap, "tasks": nt, "ops": case_ops + [["sample", pos, [str(u) for u in us]]]}, mt.sample_batch, b, stub)
+                if not okc:
+                    break
+                if before != [[frac(x) for x in bb.priority.priority[:len(bb)]] for bb in mt.buffers]:
+                    chk.fail("C08:multitask:sample-frame", "sampling changed stored priorities", {"capacity": cap, "tasks": nt, "ops": case_ops + [["sample", pos]]})
                 sampled_task = int(mt.sampled_task_idx)
                 mops.append(("sample", stub.last_choice_pos, us))
                 case_ops.append(["sample", pos, [str(u) for u in us]])
@@ -464,7 +486,10 @@ def mt_cases(chk, rng, n_cases):
                 b = len(mops[[i for i, o in enumerate(mops) if o[0] == "sample"][-1]][2])
                 ps = [dy(rng) for _ in range(b)]
                 before = [[frac(x) for x in bb.priority.priority[:len(bb)]] for bb in mt.buffers]
-                mt.update_priority(np.array([float(p) for p in ps]))
+                okc, _ = chk.impl_call("C08:multitask:update-raised", {"capacity": cap, "tasks": nt, "ops": case_ops + [["update", [str(p) for p in ps]]],
+                                                                      "sampled_task": sampled_task}, mt.update_priority, np.array([float(p) for p in ps]))
+                if not okc:
+                    break
                 after = [[frac(x) for x in bb.priority.priority[:len(bb)]] for bb in mt.buffers]
                 mops.append(("update", ps))
                 case_ops.append(["update", [str(p) for p in ps]])
